@@ -2,7 +2,7 @@
 import json
 import common, enc, gen, seq, sweep, impl, directed
 
-TOP = ['theories/Props/C08.v', 'theories/Tie/TieTables.v']
+TOP = ['theories/Props/C08.v', 'theories/Tie/TieTables.v', 'theories/Tie/TieSeq.v']
 RULE = ('contents of every mode (digits, alphanumeric, bytes, latin-1, Shift JIS kanji, multi-byte UTF-8 text, hanzi, ints) with lengths '
         'around the Structured Append thresholds of versions 1,2,5,10,27,40, by version and by symbol_count 1..16; every symbol '
         'is decoded by the extracted reference decoder: header (index, total-1, parity = XOR of the message bytes), fit, concatenation')
